@@ -263,7 +263,7 @@ def stepRestart (d : DState) (l : Line) : DState × List Verdict :=
           [.monitor "c18/write_iff_volume_available" s!"write={wr},model_can_write={want},vols={showStrList vols}"]
       | none => []
     let vC := comps.foldl (fun acc kv =>
-      if kv.2 == "1" then acc else acc ++ [.monitor s!"c18/restart_same/{(kv.1.drop 2).toString}" s!"mode={(getStr l.args "mode").getD "?"}"]) []
+      if kv.2 == "1" then acc else acc ++ [.monitor s!"c18/restart_same/{(kv.1.drop 2).toString}" s!"mode={(getStr l.args "mode").getD "?"},pending_migrations={(getStr l.args "mig").getD "0"}"]) []
     let vD : List Verdict := if dlvb == dlva then [] else
       [.monitor "c18/webhook_delivery_after_restart" s!"before={showStrList dlvb},after={showStrList dlva}"]
     let vA : List Verdict := if alters.isEmpty then [] else [.monitor "c18/open_alters_data" s!"tables={showStrList alters}"]
